@@ -87,6 +87,24 @@ def run(prop, tier, replay=None):
     for k in range(0, total[1] + 1, step):
         scheds.append([1] * k + [2] * total[2] + [1] * (total[1] - k))
         scheds.append([2] * k + [1] * total[1] + [2] * (total[2] - k))
+    # two-split schedules around the OS calls: A runs up to (just behind) one of its OS calls, B runs up to one of its own, A finishes,
+    # B finishes - the shape needed when A's second half acts on something B acquired in between (a descriptor number, a mapping)
+    def seq(t):
+        out = []
+        for r in range(2):
+            out += items[(t + r) % nitems]["acc"]
+        return out
+    osp = {t: [k + 1 for k, a in enumerate(seq(t)) if a["t"] == 2] for t in (1, 2)}
+    lim = 400 if tier == "quick" else 4000
+    two = []
+    for a, b in ((1, 2), (2, 1)):
+        for k in osp[a]:
+            for j in osp[b]:
+                two.append([a] * k + [b] * j + [a] * (total[a] - k) + [b] * (total[b] - j))
+    if len(two) > lim:
+        rnd.shuffle(two)
+        two = two[:lim]
+    scheds += two
     if cex is not None:
         scheds.insert(0, cex)
     inp = "\n".join(" ".join(str(x) for x in s) for s in scheds) + "\n"
